@@ -39,6 +39,8 @@ type CheckCfg struct {
 	Outside     []string     `json:"outside"`
 }
 
+var outDir = envOr("VERIF_OUT", verifDir)
+
 func loadChecks() (map[string]CheckCfg, error) {
 	data, err := os.ReadFile(filepath.Join(verifDir, "checks.json"))
 	if err != nil {
@@ -405,10 +407,10 @@ func checkMain(args []string) int {
 	}
 	nviol := 0
 	if len(confirmed) > 0 {
-		os.MkdirAll(filepath.Join(verifDir, "replays", id), 0755)
+		os.MkdirAll(filepath.Join(outDir, "replays", id), 0755)
 		for i, c := range confirmed {
 			nviol++
-			path := filepath.Join(verifDir, "replays", id, fmt.Sprintf("%s-%d.json", strings.ReplaceAll(c.h, ".", "_"), i))
+			path := filepath.Join(outDir, "replays", id, fmt.Sprintf("%s-%d.json", strings.ReplaceAll(c.h, ".", "_"), i))
 			st := "assert"
 			if c.v.Kind == "panic" {
 				st = "panic"
@@ -421,8 +423,8 @@ func checkMain(args []string) int {
 		exit = 1
 	}
 	for i, hc := range hangs {
-		os.MkdirAll(filepath.Join(verifDir, "replays", id), 0755)
-		path := filepath.Join(verifDir, "replays", id, fmt.Sprintf("%s-hang-%d.json", strings.ReplaceAll(hc.Harness, ".", "_"), i))
+		os.MkdirAll(filepath.Join(outDir, "replays", id), 0755)
+		path := filepath.Join(outDir, "replays", id, fmt.Sprintf("%s-hang-%d.json", strings.ReplaceAll(hc.Harness, ".", "_"), i))
 		js, _ := json.MarshalIndent(map[string]interface{}{"property": id, "harness": hc.Harness, "params": hc.Params, "model": hc.Model, "status": "hang", "kind": "hang", "label": hc.Label, "inputs": hc.Inputs}, "", " ")
 		os.WriteFile(path, js, 0644)
 		fmt.Fprintf(os.Stderr, "violation: %s does not terminate (engine step budget exhausted, native run exceeded the 20 s watchdog) inputs=%v %s\n", hc.Harness, hc.Inputs, hc.Label)
@@ -432,8 +434,8 @@ func checkMain(args []string) int {
 	}
 	if id == "C20" && len(gwrites) > 0 {
 		// global writes are the C20 violation; replay = first sample path
-		os.MkdirAll(filepath.Join(verifDir, "replays", id), 0755)
-		path := filepath.Join(verifDir, "replays", id, "global-writes.json")
+		os.MkdirAll(filepath.Join(outDir, "replays", id), 0755)
+		path := filepath.Join(outDir, "replays", id, "global-writes.json")
 		js, _ := json.MarshalIndent(gwrites, "", " ")
 		os.WriteFile(path, js, 0644)
 		fmt.Printf("VIOLATION property=%s replay=%s\n", id, path)
@@ -505,9 +507,9 @@ func checkMain(args []string) int {
 			"global_writes":                 gwrites,
 		},
 	}
-	os.MkdirAll(filepath.Join(verifDir, "evidence"), 0755)
+	os.MkdirAll(filepath.Join(outDir, "evidence"), 0755)
 	js, _ := json.MarshalIndent(ev, "", " ")
-	os.WriteFile(filepath.Join(verifDir, "evidence", id+".json"), js, 0644)
+	os.WriteFile(filepath.Join(outDir, "evidence", id+".json"), js, 0644)
 	fmt.Fprintf(os.Stderr, "%s %s: paths=%d decisions=%d queries=%d solver=%.1fs validated=%d violations=%d known=%d exit=%d wall=%.1fs\n", id, *tier, totalPaths, totalDec, st.St.Queries, st.SolverS, validated, nviol, len(knownHits), exit, time.Since(t0).Seconds())
 	return exit
 }
